@@ -198,6 +198,16 @@ let op_matem (args : string list) (line : string) : string =
   | _ -> "BAD-ARGS"
 
 
+(* goparse <tokens...> : the model of Uci::go_command on the tokens of a go command *)
+let op_goparse (args : string list) : string =
+  let l = M.parse_go (List.map cstr args) in
+  let z v = string_of_int (int_of_z v) in
+  Printf.sprintf "ponder=%d wtime=%s btime=%s winc=%s binc=%s movestogo=%s depth=%s nodes=%s mate=%s movetime=%s infinite=%d searchmoves=%s"
+    (if l.M.l_ponder then 1 else 0) (z l.M.l_wtime) (z l.M.l_btime) (z l.M.l_winc) (z l.M.l_binc) (z l.M.l_movestogo) (z l.M.l_depth) (z l.M.l_nodes)
+    (match l.M.l_mate with Some v -> z v | None -> "-") (z l.M.l_movetime) (if l.M.l_infinite then 1 else 0)
+    (match l.M.l_searchmoves with [] -> "-" | ms -> String.concat "," (List.map ostr ms))
+
+
 (* s2s <v> : the model of score2str *)
 let op_s2s (args : string list) : string =
   match args with
@@ -740,6 +750,7 @@ let dispatch (line : string) : string =
      | "valid" -> op_valid (rest_after line 1)
      | "mate" -> op_mate args line
      | "matem" -> op_matem args line
+     | "goparse" -> op_goparse args
      | "threats" -> op_threats (rest_after line 1)
      | "hm" -> op_hm args
      | "egeval" -> op_egeval (rest_after line 1)
